@@ -4,6 +4,7 @@
 //! implementation's canonicalised answer per line) and DIR/summary.json (oracle verdicts,
 //! input distribution).
 mod c01;
+mod c02;
 mod c08;
 mod c17;
 mod common;
@@ -36,6 +37,7 @@ fn main() {
     let mut run = Run::new(&prop, &opts);
     match prop.as_str() {
         "C01" => c01::run(&mut run),
+        "C02" => c02::run(&mut run),
         "C08" => c08::run(&mut run),
         "C17" => c17::run(&mut run),
         _ => { eprintln!("unknown property {}", prop); std::process::exit(2); }
